@@ -29,12 +29,14 @@ import (
 const vrtPath = "github.com/tmaxmax/go-sse/vrt"
 
 var importShims = map[string][2]string{ // original path -> (local name, shim path)
-	"sync":      {"sync", vrtPath + "/vsync"},
-	"time":      {"time", vrtPath + "/vtime"},
-	"math/rand": {"rand", vrtPath + "/vrand"},
+	"sync":        {"sync", vrtPath + "/vsync"},
+	"time":        {"time", vrtPath + "/vtime"},
+	"math/rand":   {"rand", vrtPath + "/vrand"},
+	"sync/atomic": {"atomic", vrtPath + "/vatomic"},
+	"context":     {"context", vrtPath + "/vctx"},
 }
 
-var forbiddenImports = map[string]bool{"sync/atomic": true, "math/rand/v2": true, "os/signal": true}
+var forbiddenImports = map[string]bool{"math/rand/v2": true, "os/signal": true}
 
 type rewriter struct {
 	fset   *token.FileSet
@@ -372,18 +374,23 @@ func main() {
 	out := flag.String("out", "", "output directory for rewritten files and overlay.json")
 	vrtDir := flag.String("vrt", "/verif/vrt", "directory holding the vrt runtime sources")
 	extra := flag.String("extra", "", "comma separated list of dst=src overlay additions (dst relative to the repository root)")
+	as := flag.String("as", "", "key the overlay under this directory instead of -repo (to check a scratch copy of the repository while the module replace points at /repo)")
 	flag.Parse()
 	if *out == "" {
 		fmt.Fprintln(os.Stderr, "vxform: -out required")
 		os.Exit(2)
 	}
-	if err := run(*repo, *out, *vrtDir, *extra); err != nil {
+	if err := run(*repo, *out, *vrtDir, *extra, *as); err != nil {
 		fmt.Fprintln(os.Stderr, "vxform:", err)
 		os.Exit(2)
 	}
 }
 
-func run(repo, out, vrtDir, extra string) error {
+func run(repo, out, vrtDir, extra, as string) error {
+	keyRoot := repo
+	if as != "" {
+		keyRoot = as
+	}
 	if err := os.MkdirAll(out, 0o755); err != nil {
 		return err
 	}
@@ -463,7 +470,7 @@ func run(repo, out, vrtDir, extra string) error {
 		if err := os.WriteFile(dst, append([]byte(hdr), buf.Bytes()...), 0o644); err != nil {
 			return err
 		}
-		overlay[filepath.Join(repo, names[i])] = dst
+		overlay[filepath.Join(keyRoot, names[i])] = dst
 		for k, v := range r.counts {
 			summary[k] += v
 		}
@@ -474,7 +481,7 @@ func run(repo, out, vrtDir, extra string) error {
 			return err
 		}
 		rel, _ := filepath.Rel(vrtDir, p)
-		overlay[filepath.Join(repo, "vrt", rel)] = p
+		overlay[filepath.Join(keyRoot, "vrt", rel)] = p
 		return nil
 	})
 	if err != nil {
@@ -486,8 +493,28 @@ func run(repo, out, vrtDir, extra string) error {
 			if len(parts) != 2 {
 				return fmt.Errorf("bad -extra entry %q", kv)
 			}
-			overlay[filepath.Join(repo, parts[0])] = parts[1]
+			overlay[filepath.Join(keyRoot, parts[0])] = parts[1]
 		}
+	}
+	if as != "" {
+		// the rest of the scratch copy (sub-packages are not instrumented): map its non-test Go files too
+		_ = filepath.Walk(repo, func(p string, fi os.FileInfo, err error) error {
+			if err != nil {
+				return nil
+			}
+			rel, _ := filepath.Rel(repo, p)
+			if fi.IsDir() {
+				if rel == "cmd" || strings.HasPrefix(fi.Name(), ".") && rel != "." {
+					return filepath.SkipDir
+				}
+				return nil
+			}
+			if !strings.HasSuffix(p, ".go") || strings.HasSuffix(p, "_test.go") || filepath.Dir(rel) == "." {
+				return nil
+			}
+			overlay[filepath.Join(keyRoot, rel)] = p
+			return nil
+		})
 	}
 	js, _ := json.MarshalIndent(map[string]any{"Replace": overlay}, "", " ")
 	if err := os.WriteFile(filepath.Join(out, "overlay.json"), js, 0o644); err != nil {
